@@ -277,7 +277,7 @@ fn vfs_read(path: &str) -> Result<Vec<u8>, Box<dyn std::error::Error + Send + Sy
 #[cfg(feature = "cfg-alloc")]
 fn crate_err(e: tz::Error) -> Value {
     match e {
-        tz::Error::Io(_) => json!({ "err": "Io" }),
+        tz::Error::Io(e) => json!({ "err": "Io", "msg": e.to_string() }),
         tz::Error::Tz(t) => err(t),
         #[allow(unreachable_patterns)]
         _ => json!({ "err": "Other" }),
@@ -659,6 +659,14 @@ fn exec_inner(op: &str, a: &Value, st: &mut State) -> Value {
             VFS.with(|v| *v.borrow_mut() = vfs);
             READS.with(|r| r.borrow_mut().clear());
             let settings = TimeZoneSettings::new(&dir_refs, vfs_read);
+            // optional earlier resolutions on the SAME settings value (their results are dropped): the judged call must not depend on them
+            if let Some(pre) = a.get("pre").and_then(|p| p.as_array()) {
+                for p in pre {
+                    let ps = String::from_utf8(to_bytes(p)).expect("resolve: utf8 pre value");
+                    let _ = settings.parse_posix_tz(&ps);
+                }
+                READS.with(|r| r.borrow_mut().clear());
+            }
             let res = if gets(a, "via") == "local" { settings.parse_local() } else { settings.parse_posix_tz(&s) };
             let reads: Vec<Value> = READS.with(|r| r.borrow().iter().map(|p| bytes(p.as_bytes())).collect());
             match res {
